@@ -35,7 +35,7 @@ ASSUMPTIONS = [
 ]
 
 DEFAULTS = [None, 0, 1, False, True, "", "x", 0.0, (), [1]]
-VALUES = [None, 0, 1, 2, False, True, "", "x", "__none__", 0.0, 1.5, (), [1], [0]]
+VALUES = [None, 0, 1, 2, False, True, "", "x", "__none__", "False", "None", 0.0, 1.5, (), [1], [0]]
 CONST_OK = (type(None), bool, int, float, str)
 NO = "<nodefault>"
 _counter = [0]
@@ -338,10 +338,78 @@ def check_signed_literals(ev):
         ev.case({"signed_literals": [x, y]}, True, features=["signed-literals-in-source"])
 
 
+UNPACK_SRC = """import dds
+
+
+def f(a, b=0, c=5):
+    return ('f', a, b, c)
+
+
+def u0():
+    return dds.keep('/u', f, 1)
+
+
+def u1():
+    return dds.keep('/u', f, 1, **{{"b": {x}}})
+
+
+def u2():
+    return dds.keep('/u', f, 1, **{{"b": {y}}})
+
+
+def u3():
+    cfg = {{"b": {x}}}
+    return dds.keep('/u', f, 1, **cfg)
+
+
+def u4():
+    cfg = {{"b": {y}, "c": {x}}}
+    return dds.keep('/u', f, 1, **cfg)
+
+
+def u5():
+    return dds.keep('/u', f, *[1, {x}])
+
+
+def u6():
+    return dds.keep('/u', f, *[1, {y}])
+
+
+def u7():
+    xs = [1, {x}, {y}]
+    return dds.keep('/u', f, *xs)
+
+
+def u8():
+    return dds.keep('/u', f, 1, c={y}, **{{"b": {x}}})
+"""
+
+
+def check_unpacked_arguments(ev):
+    """Kept calls seen in source that bind parameters through an unpacked dictionary or sequence (**{...}, **cfg, *[...], *xs):
+    calls that bind different values must not share a stored result (the unpacked parameters are not at their defaults)."""
+    e = env()
+    for (x, y) in [("2", "3"), ("0", "2"), ("None", "0"), ("'k'", "'m'")]:
+        mod = e.load(UNPACK_SRC.format(x=x, y=y))
+        e.cap.inner.__init__()
+        vx, vy = eval(x), eval(y)
+        want = {"u0": ("f", 1, 0, 5), "u1": ("f", 1, vx, 5), "u2": ("f", 1, vy, 5), "u3": ("f", 1, vx, 5), "u4": ("f", 1, vy, vx),
+                "u5": ("f", 1, vx, 5), "u6": ("f", 1, vy, 5), "u7": ("f", 1, vx, vy), "u8": ("f", 1, vx, vy)}
+        for name in ("u0", "u1", "u2", "u3", "u4", "u5", "u6", "u7", "u8", "u2", "u1", "u0", "u6"):
+            got = e.dds.eval(getattr(mod, name))
+            if repr(got) != repr(want[name]):
+                case = {"unpacked": [x, y], "fun": name}
+                raise Violation(f"unpacked arguments in source ({x} / {y}): the kept call in {name} returned {got!r}, plain execution gives {want[name]!r} "
+                                f"(a result stored for another binding was served)", case)
+        ev.case({"unpacked_arguments": [x, y]}, True, features=["unpacked-arguments-in-source"])
+
+
 def shard_exhaustive(idx, n, tier, seed):
     ev = Ev()
     if idx == 0:
         check_signed_literals(ev)
+    if idx == 1:
+        check_unpacked_arguments(ev)
     cases = exhaustive_cases(tier)
     for i in range(idx, len(cases), n):
         check_case(cases[i], ev)
@@ -412,4 +480,6 @@ def run(tier, seed, scale=1.0):
 def replay(case):
     if "signed" in case:
         return check_signed_literals(Ev())
+    if "unpacked" in case:
+        return check_unpacked_arguments(Ev())
     check_case(case, None)
